@@ -79,6 +79,78 @@ pub struct F {
     pub action: String,
     pub header: String,
     pub value: String,
+    /// the filter carries a unit id and the production target hash "header::<lower-cased name>" (must not change the result)
+    #[serde(default)]
+    pub hash: bool,
+}
+
+impl F {
+    pub fn id(&self) -> Option<String> {
+        if self.hash {
+            Some(format!("unit-{}", self.action))
+        } else {
+            None
+        }
+    }
+    pub fn target_hash(&self) -> Option<String> {
+        if self.hash {
+            Some(format!("header::{}", self.header.to_lowercase()))
+        } else {
+            None
+        }
+    }
+    pub fn api(&self) -> HeaderFilter {
+        HeaderFilter { action: self.action.clone(), header: self.header.clone(), value: self.value.clone(), id: self.id(), target_hash: self.target_hash() }
+    }
+}
+
+/// second universe: names that are prefixes of one another (`X`, `X-Y`, `x-y-z`) and filters with / without the
+/// production target hash
+pub const PREFIX_HEADER_NAMES: &[&str] = &["X", "X-Y"];
+pub const PREFIX_FILTER_NAMES: &[&str] = &["X", "x-y", "X-Y-Z"];
+
+pub fn prefix_header_lists(max: usize) -> Vec<Vec<H>> {
+    let mut out: Vec<Vec<H>> = vec![vec![]];
+    let mut layer: Vec<Vec<H>> = vec![vec![]];
+    for _ in 0..max {
+        let mut next = Vec::new();
+        for l in &layer {
+            for n in PREFIX_HEADER_NAMES {
+                let mut x = l.clone();
+                x.push((n.to_string(), "a".to_string()));
+                next.push(x);
+            }
+        }
+        out.extend(next.iter().cloned());
+        layer = next;
+    }
+    out
+}
+
+pub fn prefix_filter_sequences(max: usize) -> Vec<Vec<F>> {
+    let mut singles = Vec::new();
+    for (ai, a) in ACTIONS.iter().enumerate() {
+        for (ni, n) in PREFIX_FILTER_NAMES.iter().enumerate() {
+            for hash in [false, true] {
+                singles.push(F { action: a.to_string(), header: n.to_string(), value: if (ai + ni) % 2 == 0 { "a".to_string() } else { format!("w{ai}{ni}") }, hash });
+            }
+        }
+    }
+    let mut out: Vec<Vec<F>> = vec![vec![]];
+    let mut layer: Vec<Vec<F>> = vec![vec![]];
+    for _ in 0..max {
+        let mut next = Vec::new();
+        for l in &layer {
+            for s in &singles {
+                let mut n = l.clone();
+                n.push(s.clone());
+                next.push(n);
+            }
+        }
+        out.extend(next.iter().cloned());
+        layer = next;
+    }
+    out
 }
 
 pub fn all_filter_sequences(max: usize) -> Vec<Vec<F>> {
@@ -91,7 +163,7 @@ pub fn all_filter_sequences(max: usize) -> Vec<Vec<F>> {
                 1 => String::new(),
                 _ => format!("v{ai}{ni}"),
             };
-            singles.push(F { action: a.to_string(), header: n.to_string(), value });
+            singles.push(F { action: a.to_string(), header: n.to_string(), value, hash: false });
         }
     }
     let mut out: Vec<Vec<F>> = vec![vec![]];
@@ -123,7 +195,7 @@ pub fn action_with_filters(filters: &[F]) -> Action {
     let hf: Vec<Value> = filters
         .iter()
         .map(|f| {
-            json!({"filter": {"action": f.action, "header": f.header, "value": f.value, "id": null, "target_hash": null},
+            json!({"filter": {"action": f.action, "header": f.header, "value": f.value, "id": f.id(), "target_hash": f.target_hash()},
                    "on_response_status_codes": [], "exclude_response_status_codes": false, "rule_id": null})
         })
         .collect();
@@ -139,10 +211,7 @@ pub fn check_case(headers: &[H], filters: &[F]) -> Vec<(String, String)> {
     for f in filters {
         want = reference_apply(&f.action, &f.header, &f.value, want);
     }
-    let api_filters: Vec<HeaderFilter> = filters
-        .iter()
-        .map(|f| HeaderFilter { action: f.action.clone(), header: f.header.clone(), value: f.value.clone(), id: None, target_hash: None })
-        .collect();
+    let api_filters: Vec<HeaderFilter> = filters.iter().map(|f| f.api()).collect();
     let got1 = match FilterHeaderAction::new(api_filters) {
         None => headers.to_vec(),
         Some(a) => from_headers(a.filter(to_headers(headers), None)),
@@ -152,10 +221,7 @@ pub fn check_case(headers: &[H], filters: &[F]) -> Vec<(String, String)> {
         let mut cur = headers.to_vec();
         for (i, f) in filters.iter().enumerate() {
             cur = reference_apply(&f.action, &f.header, &f.value, cur);
-            let partial: Vec<HeaderFilter> = filters[..=i]
-                .iter()
-                .map(|f| HeaderFilter { action: f.action.clone(), header: f.header.clone(), value: f.value.clone(), id: None, target_hash: None })
-                .collect();
+            let partial: Vec<HeaderFilter> = filters[..=i].iter().map(|f| f.api()).collect();
             let g = match FilterHeaderAction::new(partial) {
                 None => headers.to_vec(),
                 Some(a) => from_headers(a.filter(to_headers(headers), None)),
@@ -175,13 +241,21 @@ pub fn check_case(headers: &[H], filters: &[F]) -> Vec<(String, String)> {
     if got2 != want {
         out.push((format!("action-filter-headers:{}", culprit(&got2)), format!("Action::filter_headers gives {got2:?}, reference fold gives {want:?}")));
     }
+    // the same with a unit trace (what the explain / test-example analyses pass): it must not change the headers
+    let mut trace = redirectionio::action::UnitTrace::default();
+    let mut action = action_with_filters(filters);
+    let got3 = from_headers(action.filter_headers(to_headers(headers), 200, false, Some(&mut trace)));
+    if got3 != want {
+        out.push((format!("action-filter-headers-with-unit-trace:{}", culprit(&got3)), format!("Action::filter_headers(.., Some(trace)) gives {got3:?}, reference fold gives {want:?}")));
+    }
     out
 }
 
 pub fn replay(case: &Value) -> Vec<String> {
     let headers: Vec<H> = serde_json::from_value(case["headers"].clone()).unwrap_or_default();
     let filters: Vec<F> = serde_json::from_value(case["filters"].clone()).unwrap_or_default();
-    check_case(&headers, &filters).into_iter().map(|(s, _)| s).collect()
+    let suffix = if case["universe"].as_str() == Some("prefix") { ":prefix-names/target-hash" } else { "" };
+    check_case(&headers, &filters).into_iter().map(|(s, _)| format!("{s}{suffix}")).collect()
 }
 
 pub fn run(tier: Tier) -> i32 {
@@ -216,7 +290,33 @@ pub fn run(tier: Tier) -> i32 {
             }
         }
     });
+    // second universe: prefix-related names, filters with and without unit id / target hash
+    let plists = prefix_header_lists(3);
+    let pseqs = prefix_filter_sequences(tier.pick(3, 4).min(3));
+    par_range(ctx.threads, pseqs.len(), |i| {
+        let filters = &pseqs[i];
+        for headers in &plists {
+            ctx.eval(1);
+            for (sig, what) in check_case(headers, filters) {
+                ctx.report(Violation {
+                    signature: format!("{sig}:prefix-names/target-hash"),
+                    what,
+                    case: json!({"headers": headers, "filters": filters, "universe": "prefix"}),
+                    weight: (headers.len() + filters.len() * 4) as u64,
+                });
+            }
+            let mut want = headers.clone();
+            for f in filters {
+                want = reference_apply(&f.action, &f.header, &f.value, want);
+            }
+            if &want != headers {
+                changed.insert_str(&format!("{headers:?}{filters:?}"));
+            }
+            outcomes.insert_str(&format!("{want:?}"));
+        }
+    });
     let mut cov = Coverage::new();
+    cov.set("prefix_universe", json!({"header_lists": plists.len(), "filter_sequences": pseqs.len(), "header_names": PREFIX_HEADER_NAMES, "filter_names": PREFIX_FILTER_NAMES}));
     cov.set("distinct_nontrivial", json!(changed.len()))
         .set("rule", json!("full product header lists (<=3 over 3 names x 2 values) x filter sequences; distinct_nontrivial = distinct (list, sequence) pairs whose expected output differs from the input list"))
         .set("header_lists", json!(lists.len()))
